@@ -1149,6 +1149,19 @@ func c11Oracle(s *sim, op Op, idx int) {
 		}
 		st.byVersion[k] = c
 	}
+	// this step left rounds of the previous voting height and then committed a later round of it: if one
+	// of those rounds was left by a nil commit / full vote while the gossip reader was stalled, that
+	// advance overwrote the single NilVotedRound slot (trigger of C11-F1)
+	if st.prevVoting.H != 0 && s.vv.Height > st.prevVoting.H && s.cv.Height == st.prevVoting.H && s.cv.Round > st.prevVoting.R && s.gsStalled {
+		for r := st.prevVoting.R; r < s.cv.Round; r++ {
+			if s.roundLeftJustification(st.prevVoting.H, r) != "" {
+				for i := range st.pendingNil {
+					st.pendingNil[i].Overwritten = true
+				}
+				break
+			}
+		}
+	}
 	// the round left by a nil commit / full vote: its justification must reach gossip (when the reader is not stalled)
 	if st.prevVoting.H == s.vv.Height && s.vv.Round > st.prevVoting.R && st.prevVoting.H != 0 {
 		s.label("round-advanced")
